@@ -985,7 +985,7 @@ theorem letContent_step {b : Bytes} (p : Nat) (name : Bytes) (body : Block) (hn 
   subst hcur
   refine Spec.bind s_getScope ?_
   intro sc2 hsc2
-  refine Spec.seq (s_setScope (bind_ok hsc2 i1)) ?_
+  refine Spec.seq (s_setScope (bind_ok hsc2 i1 (nameFor_jsname name [] _))) ?_
   exact s_setBuf old
 
 theorem headerParam_step {b : Bytes} (p : Nat) (opt : Bool) (n : Bytes) (tp : Nat) (t : Bytes) (d : Option Expr) :
